@@ -546,6 +546,26 @@ def TH(name):
     return ["this", name]
 
 
+def streaming_hosts(x):
+    """x as a member of a bit-/byte-transforming wrapper whose content has no static size: such a wrapper pipes the data
+    through the streaming implementation (RestreamedBytesIO: no random access, unit-wise buffering) instead of a plain buffer.
+    x must not seek (documented limitation of the streaming implementation)."""
+    return [["BitsSwapped", ["Struct", [["v", ["VarInt"]], ["x", x]]]],
+            ["Bitwise", ["Struct", [["v", ["Bytewise", ["VarInt"]]], ["x", ["Bytewise", x]]]]]]
+
+
+def streaming_terms(level=1):
+    """streaming_hosts over every non-seeking context-free term of tier 1 (level 1) or tiers 1 and 2 (level 2)"""
+    out = []
+    for x in tier1() + (tier2() if level >= 2 else []):
+        a = attrs(x)
+        if x[0] == "PaddedString" and x[2] == "utf16":
+            continue    # BOM-writing codec in a fixed-size field: recorded finding of C02 at tier 1, not repeated per host
+        if not a.seeks and a.ctxfree:
+            out += streaming_hosts(x)
+    return out
+
+
 def zero_size_terms():
     """every wrapper over a child of size 0 (Bytes(0), empty Array/Struct/Sequence, Pass, Padding(0), Computed): the boundary where
     "nothing to transform" shortcuts live; also as a member followed by real data"""
